@@ -175,12 +175,12 @@ func (st *c20State) trigger() {
 	}
 	st.triggered = true
 	switch st.sc.trig {
-	case "cancel":
+	case "cancel", "cancelc":
 		if st.cancel != nil {
 			st.cancel() // synchronous: Done is closed (and derived contexts cancelled) on return
 			st.add("cc")
 		}
-	case "expire":
+	case "expire", "expirec":
 		st.mu.Unlock()
 		select {
 		case <-st.ctx.Done():
@@ -448,8 +448,17 @@ func c20Run(c *ctx, sc c20Scenario) {
 		st.ctx = context.Background()
 	case "plain":
 		st.ctx, st.cancel = context.WithCancel(context.Background())
+		if sc.trig == "cancelc" {
+			// a cause-carrying context (context.WithCancelCause), ended with an application error as its cause:
+			// "the context's error" is still ctx.Err() = context.Canceled
+			cctx, cancelCause := context.WithCancelCause(context.Background())
+			st.ctx, st.cancel = cctx, func() { cancelCause(errors.New("verif: application-level cause")) }
+		}
 	case "dlshort":
 		st.ctx, st.cancel = context.WithTimeout(context.Background(), c20Short)
+		if sc.trig == "expirec" {
+			st.ctx, st.cancel = context.WithTimeoutCause(context.Background(), c20Short, errors.New("verif: application-level cause"))
+		}
 	case "dllong":
 		st.ctx, st.cancel = context.WithTimeout(context.Background(), c20Long)
 	}
@@ -602,15 +611,18 @@ func runC20(c *ctx) {
 		var trigs []string
 		if k.ctxk != "bg" {
 			trigs = append(trigs, "cancel")
+			if k.ctxk == "plain" {
+				trigs = append(trigs, "cancelc")
+			}
 		}
 		if k.ctxk == "dlshort" {
-			trigs = append(trigs, "expire")
+			trigs = append(trigs, "expire", "expirec")
 		}
 		if k.tmo == "short" {
 			trigs = append(trigs, "timer")
 		}
 		for _, tg := range trigs {
-			slow := tg != "cancel"
+			slow := tg != "cancel" && tg != "cancelc"
 			ps := peers
 			if slow && !c.thor {
 				ps = []peerT{peers[0], peers[5]}
